@@ -72,7 +72,7 @@ type Case struct {
 
 var byteKinds = []string{"bitflip", "delete", "insert-00", "insert-ff", "insert-copy", "subst-00", "subst-ff", "subst-not"}
 var fieldKinds = []string{"rewrite", "remove", "add-unknown"}
-var sigKinds = []string{"issuer-signs-noncanonical-bytes", "issuer-signs-noncanonical-bytes", "resign-by-prefix-twin", "issuer-under-other-multicodec", "issuer-under-other-multicodec", "issuer-signs-other-payload-encoding", "issuer-signs-other-payload-encoding", "issuer-signs-header-insert", "issuer-signs-header-insert", "issuer-signs-header-delete", "issuer-signs-header-subst", "issuer-signs-header-dup-segment", "issuer-signs-foreign-header", "issuer-signs-garbled-header", "issuer-signs-empty-header", "issuer-signs-extended-header", "resign-other-same-alg", "resign-other-alg", "resign-signer-header", "borrow-signature", "header-other-alg", "header-garbled", "header-empty", "sig-truncate", "sig-empty", "sig-extend", "sig-zero", "ecdsa-forged-for-zero-digest", "ecdsa-forged-for-zero-digest", "ecdsa-trivial-values"}
+var sigKinds = []string{"issuer-signs-noncanonical-bytes", "issuer-signs-noncanonical-bytes", "resign-by-prefix-twin", "forger-key-in-did-url", "forger-key-in-did-url", "issuer-under-other-multicodec", "issuer-under-other-multicodec", "issuer-signs-other-payload-encoding", "issuer-signs-other-payload-encoding", "issuer-signs-header-insert", "issuer-signs-header-insert", "issuer-signs-header-delete", "issuer-signs-header-subst", "issuer-signs-header-dup-segment", "issuer-signs-foreign-header", "issuer-signs-garbled-header", "issuer-signs-empty-header", "issuer-signs-extended-header", "resign-other-same-alg", "resign-other-alg", "resign-signer-header", "borrow-signature", "header-other-alg", "header-garbled", "header-empty", "sig-truncate", "sig-empty", "sig-extend", "sig-zero", "ecdsa-forged-for-zero-digest", "ecdsa-forged-for-zero-digest", "ecdsa-trivial-values"}
 
 var dlgFields = []string{"iss", "aud", "sub", "cmd", "pol", "nonce", "meta", "nbf", "exp"}
 var invFields = []string{"iss", "aud", "sub", "cmd", "args", "prf", "nonce", "meta", "exp", "iat", "cause"}
@@ -297,6 +297,23 @@ func corrupt(cs Case, sealed []byte) (out []byte, oldSig bool, ok bool) {
 			return nil, false, false
 		}
 		b, err := env.Assemble(sig, sp)
+		return b, false, err == nil
+	case "forger-key-in-did-url":
+		// iss names the victim's did:key FOLLOWED by DID-URL parts that carry the forger's key (fragment, query, path,
+		// parameter - as DID URLs and verification-method ids are written); the forger signs with its own key and header.
+		// Whatever a lenient reader makes of the extra parts, the issuer is the victim and the victim did not sign.
+		forger := otherKey(iss, c.Alt%2 == 0, c.Alt).Key()
+		fmb := forger.DID.String()[len("did:key:"):]
+		victim := iss.Key().DID.String()
+		forms := []string{victim + "#" + fmb, victim + "?key=" + fmb + "#" + fmb, victim + "/" + fmb + "#" + fmb, victim + ";" + fmb, victim + "#" + forger.DID.String(), victim + " " + forger.DID.String(), victim + "," + forger.DID.String(), victim + "\x00" + fmb}
+		np := val.V{K: "map"}
+		for _, kv := range payload.M {
+			if kv.K == "iss" {
+				kv.V = val.Str(forms[(c.Alt/2)%len(forms)])
+			}
+			np.M = append(np.M, kv)
+		}
+		b, err := env.Seal(forger.Priv, env.SigPayloadNode(env.HeaderFor(forger.Priv.Type()), e.Tag, np.Node()))
 		return b, false, err == nil
 	case "issuer-under-other-multicodec":
 		// the signer's own key bytes, announced in the iss field under ANOTHER multicodec (a key-agreement or
